@@ -133,6 +133,12 @@ impl Interp {
                     Err(_) => "err".into(),
                 }
             }
+            ["ssu.setid", name, ..] => {
+                // verification hook of the client crate: put the session's ids at chosen values
+                let Some(Obj::SsuClient(o)) = self.objs.get_mut(*name) else { return "bad-op".into() };
+                o.set_ids(kv(t, "csid").and_then(|x| x.parse().ok()), kv(t, "pid").and_then(|x| x.parse().ok()));
+                "ok".into()
+            }
             ["ssu.cdec", name, h, ..] => {
                 let (Some(Obj::SsuClient(o)), Some(b)) = (self.objs.get_mut(*name), unhex(h)) else { return "bad-op".into() };
                 o.decode(&b)
